@@ -2,6 +2,7 @@ package prc
 
 import (
 	"github.com/kercylan98/minotaur/toolkit/log"
+	"github.com/kercylan98/minotaur/toolkit/verifhook"
 	"sync"
 	"sync/atomic"
 )
@@ -76,6 +77,7 @@ func (c *sharedStreamProcess) packMessage(receiver, sender, forward *ProcessId, 
 	}
 
 	// 入列
+	verifhook.At("ssp.app")
 	c.lock.Lock()
 	c.batches = append(c.batches, dm)
 	c.lock.Unlock()
@@ -92,26 +94,34 @@ func (c *sharedStreamProcess) Terminate(source *ProcessId) {
 }
 
 func (c *sharedStreamProcess) activation() {
+	verifhook.At("ssp.cas")
 	if c.state.CompareAndSwap(sharedStreamProcessStateIdle, sharedStreamProcessStateActive) {
+		verifhook.At("ssp.go")
 		go func() {
+			verifhook.At("ssp.run")
 			for {
 				c.send()
+				verifhook.At("ssp.idle")
 				c.state.Store(sharedStreamProcessStateIdle)
+				verifhook.At("ssp.recheck")
 				c.lock.RLock()
 				empty := len(c.batches) == 0
 				c.lock.RUnlock()
+				verifhook.At("ssp.recas")
 				if empty {
 					break
 				} else if !c.state.CompareAndSwap(sharedStreamProcessStateIdle, sharedStreamProcessStateActive) {
 					break
 				}
 			}
+			verifhook.At("ssp.end")
 		}()
 	}
 }
 
 func (c *sharedStreamProcess) send() {
 	for {
+		verifhook.At("ssp.cut")
 		c.lock.Lock()
 		n := len(c.batches)
 		var messages []*DeliveryMessage
@@ -141,9 +151,11 @@ func (c *sharedStreamProcess) send() {
 			}
 		}
 
+		verifhook.At("ssp.send")
 		if err := c.stream.Send(sm); err != nil {
 			c.shared.detachStream(c.address)
 			c.shared.rc.logger().Error("ResourceController", log.Err(err))
+			verifhook.At("ssp.drop")
 			c.lock.Lock()
 			c.batches = nil
 			c.lock.Unlock()
